@@ -2,7 +2,7 @@
    C17_ProofsLex.v, C17_ProofsParse.v and C17_ProofsMerge.v; this file assembles the statements used by
    C17_Props.v. *)
 From Coq Require Import List NArith Bool Lia Relations String Ascii.
-From Dae Require Import C17_Spec C17_Model C17_Toks C17_MergeSpec C17_ProofsLex C17_ProofsParse C17_ProofsMerge.
+From Dae Require Import C17_Spec C17_Model C17_Toks C17_MergeSpec C17_ProofsLex C17_ProofsParse C17_ProofsMerge C17_ProofsNoCrash.
 From Dae.gen Require Import Extracted_C17.
 Import ListNotations.
 Open Scope N_scope.
@@ -21,12 +21,9 @@ Proof. exact parse_total. Qed.
 
 Definition Bs (s : string) : str := map N_of_ascii (list_ascii_of_string s).
 
-Lemma C17_parse_never_crashes_refuted_proof : exists text : str, parse text = PCrash.
-Proof. exists (Bs "routing { dport(80) -> proxy() }"). vm_compute. reflexivity. Qed.
-
-Lemma C17_parse_never_crashes_partial_proof :
-  forall c : sconfig, wf_config c = true -> parse (show c) <> PCrash.
-Proof. intros c H. rewrite (C17_roundtrip_proof c H). discriminate. Qed.
+Lemma C17_parse_never_crashes_proof :
+  forall text : str, (exists ss, parse text = POk ss) \/ parse text = PErr.
+Proof. exact parse_answers. Qed.
 
 Lemma C17_merge_order_proof :
   forall fuel fs expand entry m vis,
@@ -52,19 +49,21 @@ Proof.
   destruct (only_usable_files fuel fs expand [] entry m vis H f Hin) as [[]|E]. exact E.
 Qed.
 
-Lemma C17_over_limit_refuted_proof :
-  exists ds, existsb (fun i => max_match_set_len <=? i) ds = true /\ build_userspace ds = WCrashed.
-Proof. exists [max_match_set_len]. split; vm_compute; reflexivity. Qed.
+Lemma C17_over_limit_is_error_proof :
+  forall n ds, max_match_set_len <? n = true -> build_userspace n ds = WErr.
+Proof. intros n ds H. unfold build_userspace. rewrite H. reflexivity. Qed.
 
-Lemma C17_over_limit_partial_proof :
-  forall ds, forallb (fun i => i <? max_match_set_len) ds = true -> build_userspace ds = WOk tt.
+Lemma C17_build_never_crashes_proof :
+  forall n ds, (forall i, In i ds -> i < n) -> build_userspace n ds <> WCrashed.
 Proof.
-  intros ds H. unfold build_userspace.
-  replace (existsb (fun i => max_match_set_len <=? i) ds) with false; [reflexivity|].
-  symmetry. induction ds as [|d r IH]; [reflexivity|].
-  cbn [forallb existsb] in *. apply andb_prop in H. destruct H as [H1 H2].
-  rewrite (IH H2), orb_false_r.
-  apply N.ltb_lt in H1. apply N.leb_gt. exact H1.
+  intros n ds H. unfold build_userspace.
+  destruct (max_match_set_len <? n) eqn:E; [discriminate|].
+  replace (existsb (fun i => max_match_set_len <=? i) ds) with false; [discriminate|].
+  symmetry. apply N.ltb_ge in E.
+  induction ds as [|d r IH]; [reflexivity|].
+  cbn [existsb]. rewrite IH by (intros i Hi; apply H; right; exact Hi).
+  rewrite orb_false_r. apply N.leb_gt.
+  specialize (H d (or_introl eq_refl)). lia.
 Qed.
 
 (* a tree that uses every production *)
